@@ -5,7 +5,7 @@ cd /verif
 for i in $(seq -w 1 20); do
   ID=C$i
   s=$(date +%s)
-  VERIF_SEED=$SEED ./check $ID --tier $TIER > /tmp/runall_$ID.out 2>&1
+  VERIF_SEED=$SEED ./check $ID --tier $TIER > /tmp/runall_s${SEED}_$ID.out 2>&1
   rc=$?
   e=$(date +%s)
   v=$(python3-vt -c "
@@ -13,5 +13,5 @@ import json,jsonschema,sys
 try:
     jsonschema.validate(json.load(open('/verif/evidence/$ID.json')),json.load(open('/root/.vp/EVIDENCE.schema.json'))); print('ev_ok')
 except Exception as ex: print('EV_INVALID', str(ex)[:80])")
-  echo "$ID rc=$rc $((e-s))s $v $(grep -c '^VIOLATION' /tmp/runall_$ID.out) viol $(grep -c '^KNOWN' /tmp/runall_$ID.out) known $(grep -c '^INCONCLUSIVE' /tmp/runall_$ID.out) inconcl"
+  echo "$ID rc=$rc $((e-s))s $v $(grep -c '^VIOLATION' /tmp/runall_s${SEED}_$ID.out) viol $(grep -c '^KNOWN' /tmp/runall_s${SEED}_$ID.out) known $(grep -c '^INCONCLUSIVE' /tmp/runall_s${SEED}_$ID.out) inconcl"
 done
